@@ -532,69 +532,53 @@ impl SparqlTranslator {
             ast::GraphPattern::Basic(triples) => self.translate_basic_pattern(triples),
 
             ast::GraphPattern::Group(patterns) => {
-                // Categorize patterns by type for proper composition
-                let mut basic_patterns: Vec<&ast::GraphPattern> = Vec::new();
+                // The elements of a group are combined in the order they are written:
+                // a required pattern is joined, an OPTIONAL is a left join of what the
+                // group has matched so far, MINUS and BIND apply to what is there.
+                // Only FILTERs are collected: they scope over the entire group.
                 let mut filter_exprs: Vec<&ast::Expression> = Vec::new();
-                let mut optional_patterns: Vec<&ast::GraphPattern> = Vec::new();
-                let mut minus_patterns: Vec<&ast::GraphPattern> = Vec::new();
-                let mut bind_patterns: Vec<(&ast::Expression, &String)> = Vec::new();
+                let mut plan = LogicalOperator::Empty;
 
                 for p in patterns {
                     match p {
                         ast::GraphPattern::Filter(expr) => filter_exprs.push(expr),
-                        ast::GraphPattern::Optional(inner) => optional_patterns.push(inner),
-                        ast::GraphPattern::Minus(inner) => minus_patterns.push(inner),
+                        ast::GraphPattern::Optional(inner) => {
+                            let inner_plan = self.translate_graph_pattern(inner)?;
+                            plan = LogicalOperator::LeftJoin(LeftJoinOp {
+                                left: Box::new(plan),
+                                right: Box::new(inner_plan),
+                                condition: None,
+                            });
+                        }
+                        ast::GraphPattern::Minus(inner) => {
+                            let inner_plan = self.translate_graph_pattern(inner)?;
+                            // Nothing is removed from the empty group: it shares no variable
+                            if !matches!(plan, LogicalOperator::Empty) {
+                                plan = LogicalOperator::AntiJoin(AntiJoinOp {
+                                    left: Box::new(plan),
+                                    right: Box::new(inner_plan),
+                                });
+                            }
+                        }
                         ast::GraphPattern::Bind {
                             expression,
                             variable,
-                        } => bind_patterns.push((expression, variable)),
-                        _ => basic_patterns.push(p),
+                        } => {
+                            let expr = self.translate_expression(expression)?;
+                            plan = LogicalOperator::Bind(BindOp {
+                                expression: expr,
+                                variable: variable.clone(),
+                                input: Box::new(plan),
+                            });
+                        }
+                        _ => {
+                            let p_plan = self.translate_graph_pattern(p)?;
+                            plan = self.join_patterns(plan, p_plan);
+                        }
                     }
                 }
 
-                // 1. Translate and join basic/required patterns
-                let mut plan = LogicalOperator::Empty;
-                for p in basic_patterns {
-                    let p_plan = self.translate_graph_pattern(p)?;
-                    plan = self.join_patterns(plan, p_plan);
-                }
-
-                // 2. Apply BIND expressions (adds computed columns)
-                for (expression, variable) in bind_patterns {
-                    let expr = self.translate_expression(expression)?;
-                    plan = LogicalOperator::Bind(BindOp {
-                        expression: expr,
-                        variable: variable.clone(),
-                        input: Box::new(plan),
-                    });
-                }
-
-                // 3. Apply OPTIONAL patterns (left outer joins)
-                for inner in optional_patterns {
-                    let inner_plan = self.translate_graph_pattern(inner)?;
-                    if matches!(plan, LogicalOperator::Empty) {
-                        plan = inner_plan;
-                    } else {
-                        plan = LogicalOperator::LeftJoin(LeftJoinOp {
-                            left: Box::new(plan),
-                            right: Box::new(inner_plan),
-                            condition: None,
-                        });
-                    }
-                }
-
-                // 4. Apply MINUS patterns (anti joins)
-                for inner in minus_patterns {
-                    let inner_plan = self.translate_graph_pattern(inner)?;
-                    if !matches!(plan, LogicalOperator::Empty) {
-                        plan = LogicalOperator::AntiJoin(AntiJoinOp {
-                            left: Box::new(plan),
-                            right: Box::new(inner_plan),
-                        });
-                    }
-                }
-
-                // 5. Apply FILTER expressions last (they scope over entire group)
+                // Apply FILTER expressions last (they scope over entire group)
                 if !filter_exprs.is_empty() {
                     let predicates: Vec<LogicalExpression> = filter_exprs
                         .into_iter()
